@@ -143,6 +143,63 @@ mod proofs {
     std::mem::forget(g);
   }
 
+  /// `field_children(name)` / `field(name)` / `child_by_field_id(id)` agree with the field
+  /// labels of the children (in order; first one for the single-child accessors)
+  fn field_access(nmax: usize) {
+    let (mut t, i) = setup(nmax, 0);
+    let mut j = 0;
+    while j < MAXN {
+      if j < nmax && j > 0 {
+        let f: u16 = kani::any();
+        kani::assume(f <= 2);
+        t.data.nodes[j].field = f;
+      }
+      j += 1;
+    }
+    let g = mk_grep(&SRC_X[..t.total], t.data.clone());
+    let node = node_at(&g, i);
+    // expected: children of i with field 1 ("fielda"), ascending
+    let mut next_expected = i + 1;
+    let mut count = 0;
+    let mut first = usize::MAX;
+    let mut it = node.field_children("fielda");
+    while let Some(c) = it.next() {
+      let ci = idx_of(&c);
+      while next_expected < t.n && !(t.parent[next_expected] as usize == i && t.data.nodes[next_expected].field == 1) {
+        next_expected += 1;
+      }
+      assert!(ci == next_expected);
+      if first == usize::MAX {
+        first = ci;
+      }
+      next_expected += 1;
+      count += 1;
+    }
+    std::mem::forget(it);
+    while next_expected < t.n && !(t.parent[next_expected] as usize == i && t.data.nodes[next_expected].field == 1) {
+      next_expected += 1;
+    }
+    assert!(next_expected >= t.n, "a child carrying the field was not yielded");
+    match node.field("fielda") {
+      Some(c) => assert!(idx_of(&c) == first),
+      None => assert!(count == 0),
+    }
+    match node.child_by_field_id(1) {
+      Some(c) => assert!(idx_of(&c) == first),
+      None => assert!(count == 0),
+    }
+    assert!(node.field("nosuchf").is_none());
+    kani::cover!(count >= 2);
+    kani::cover!(count == 1 && i > 0);
+    std::mem::forget(g);
+  }
+
+  #[kani::proof]
+  #[kani::unwind(10)]
+  fn c19_field_access_n4() {
+    field_access(4);
+  }
+
   /// 0 = pre, 1 = post, 2 = level
   fn traversal_order(nmax: usize, which: u8) {
     let (t, start) = setup(nmax, 0);
